@@ -193,6 +193,7 @@ class Sim:
         self.sched = {}
         self.procs = []         # list of Proc
         self.sens = {}          # sid -> [proc index]
+        self.sens_mask = {}     # (sid, proc index) -> bit mask, for sensitivity entries that name elements of a vector
         self.event = frozenset()
         self.prev = {}
         self.drivers = {}       # sid -> {driver_id: mask}
@@ -909,6 +910,40 @@ class Sim:
                 self.issue('type-error', f"{n}({tname(t)})")
             return SL, (lambda: 1 if fn() else 0), None
         if n in ('rising_edge', 'falling_edge'):
+            if (len(args) == 1 and args[0][0] == 'call' and args[0][1][0] == 'id' and len(args[0][2]) == 1
+                    and args[0][2][0].__class__ is tuple and args[0][2][0][0] != 'range'):
+                # an element of a vector signal: sig(i) with a static index
+                vent = env.lookup(args[0][1][1].lower())
+                if vent is not None and vent[0] == 'sig' and vent[2][0] in VEC:
+                    try:
+                        ix = self.static_int(env, args[0][2][0], n)
+                    except Exception:       # noqa
+                        ix = None
+                    if ix is not None and 0 <= ix < vent[2][1]:
+                        sid = vent[1]
+                        bit = 1 << (ix if vent[2][2] == 'downto' else vent[2][1] - 1 - ix)
+                        if vent[3] == 'out':
+                            self.issue('read-out-port', f"{args[0][1][1]}")
+                        if ctx is not None:
+                            ctx.reads.add(sid)
+                            ctx.unguarded_reads.add(sid)
+                            ctx.edge_signals.add(sid)
+                        newb = bit if n == 'rising_edge' else 0
+                        S = self.S
+
+                        def edge_bit():
+                            if sid not in sim.event:
+                                return False
+                            cur, prv = S[sid], sim.prev.get(sid)
+                            if cur.__class__ is not int or prv.__class__ is not int:
+                                if cur.__class__ is Meta and prv.__class__ in (Meta, int):
+                                    pm, pv = (prv.m, prv.v) if prv.__class__ is Meta else (0, prv)
+                                    return not (cur.m & bit) and not (pm & bit) and (cur.v & bit) == newb and (pv & bit) == bit - newb
+                                if cur.__class__ is int and prv.__class__ is Meta:
+                                    return not (prv.m & bit) and (cur & bit) == newb and (prv.v & bit) == bit - newb
+                                return False
+                            return (cur & bit) == newb and (prv & bit) == bit - newb
+                        return BOOL, edge_bit, None
             if len(args) != 1 or args[0][0] != 'id':
                 self.issue('type-error', f"{n} needs a signal name")
                 return BOOL, (lambda: False), None
@@ -1831,6 +1866,7 @@ class Sim:
                 inner()
         # sensitivity list
         sens_sids = set()
+        sens_masks = {}          # sid -> bit mask (entries that name a single element / static slice of a vector signal)
         if sens == 'all':
             sens_sids = set(ctx.reads)
             self.warn('process-all', where)
@@ -1843,6 +1879,16 @@ class Sim:
                     if n[0] not in ('call', 'slice'):
                         raise Unsupported("sensitivity entry")
                     n = n[1]
+                emask = None
+                if s[0] == 'call' and s[1][0] == 'id' and len(s[2]) == 1 and s[2][0].__class__ is tuple and s[2][0][0] != 'range':
+                    vent = penv.names.get(s[1][1].lower()) or env.lookup(s[1][1].lower())
+                    if vent is not None and vent[0] == 'sig' and vent[2][0] in VEC:
+                        try:
+                            ix = self.static_int(env, s[2][0], where)
+                            if 0 <= ix < vent[2][1]:
+                                emask = 1 << (ix if vent[2][2] == 'downto' else vent[2][1] - 1 - ix)
+                        except Exception:       # noqa
+                            emask = None
                 ent = env.lookup(n[1].lower())
                 if penv.names.get(n[1].lower()) is not None:
                     ent = penv.names[n[1].lower()]
@@ -1852,17 +1898,25 @@ class Sim:
                 if ent[3] == 'out':
                     self.issue('read-out-port', f"{n[1]} in sensitivity list of {where}")
                 sens_sids.add(ent[1])
+                if emask is None:
+                    sens_masks[ent[1]] = -1
+                elif sens_masks.get(ent[1]) != -1:
+                    sens_masks[ent[1]] = sens_masks.get(ent[1], 0) | emask
             missing = ctx.unguarded_reads - sens_sids
             if missing:
                 self.issue('incomplete-sensitivity-list',
                            f"{where}: reads {sorted(self.signame[x] for x in missing)} outside a clock-edge guard")
-        self.add_proc(where, run, sens_sids, ctx, ('process', path, label))
+        self.add_proc(where, run, sens_sids, ctx, ('process', path, label), sens_masks)
 
-    def add_proc(self, where, run, sens_sids, ctx, driver_id):
+    def add_proc(self, where, run, sens_sids, ctx, driver_id, sens_masks=None):
         idx = len(self.procs)
         self.procs.append((where, run))
         for sid in sens_sids:
             self.sens.setdefault(sid, []).append(idx)
+            m = (sens_masks or {}).get(sid, -1)
+            if m != -1:
+                # woken only by events on the listed elements of the vector
+                self.sens_mask[(sid, idx)] = m
         for sid, m in ctx.writes.items():
             d = self.drivers.setdefault(sid, {})
             d[driver_id] = d.get(driver_id, 0) | m
@@ -2072,8 +2126,16 @@ class Sim:
                 if not sched:
                     return
                 changed = set()
+                sens_mask = self.sens_mask
+                chg_bits = {}
                 for sid, v in sched.items():
                     if S[sid] != v or S[sid].__class__ is not v.__class__:
+                        if sens_mask:
+                            o = S[sid]
+                            if o.__class__ in (int, Meta) and v.__class__ in (int, Meta) and o.__class__ is not bool and v.__class__ is not bool:
+                                ov, om = (o.v, o.m) if o.__class__ is Meta else (o, 0)
+                                nv, nm = (v.v, v.m) if v.__class__ is Meta else (v, 0)
+                                chg_bits[sid] = (ov ^ nv) | (om ^ nm)
                         self.prev[sid] = S[sid]
                         S[sid] = v
                         changed.add(sid)
@@ -2084,6 +2146,10 @@ class Sim:
                 w = set()
                 for sid in changed:
                     for p in sens.get(sid, ()):
+                        if sens_mask:
+                            m = sens_mask.get((sid, p))
+                            if m is not None and sid in chg_bits and not (chg_bits[sid] & m):
+                                continue
                         w.add(p)
                 woken = sorted(w)
             for p in woken:
